@@ -89,8 +89,7 @@ func runC04(c *Ctx) {
 				if cs.State == nil || cs.State.Dir != types.RecvOnly || !cs.Body.Dominates(b) {
 					continue
 				}
-				fv, base := FieldOf(cs.State.Chan)
-				if fv == nil || fv.Name() != "C" || !DerivesOnly(base, false, IsFieldLoadPred("Waiter", "timer")) {
+				if !isTimerChan(cs.State.Chan, 0) {
 					continue
 				}
 				// armed with the difference on every path into the select
@@ -597,3 +596,29 @@ func sampleFieldSet(in ssa.Instruction, key, val func(ssa.Value) bool, depth int
 }
 
 func isConstValue(v ssa.Value) bool { _, ok := v.(*ssa.Const); return ok }
+
+
+// isTimerChan: the channel is Waiter.timer.C, or what a helper of the package returns on every path is (armTimer(d)).
+func isTimerChan(v ssa.Value, depth int) bool {
+	if fv, base := FieldOf(v); fv != nil && fv.Name() == "C" && DerivesOnly(base, false, IsFieldLoadPred("Waiter", "timer")) {
+		return true
+	}
+	cl, _ := CallOfValue(v)
+	if cl == nil || depth > 2 {
+		return false
+	}
+	sc := cl.Call.StaticCallee()
+	if sc == nil || len(sc.Blocks) == 0 || PkgOf(sc) != PkgOf(cl.Parent()) {
+		return false
+	}
+	n, all := 0, true
+	EachInstr(sc, func(in ssa.Instruction) {
+		if ret, ok := in.(*ssa.Return); ok && len(ret.Results) == 1 {
+			n++
+			if !isTimerChan(ret.Results[0], depth+1) {
+				all = false
+			}
+		}
+	})
+	return n > 0 && all
+}
